@@ -96,29 +96,17 @@ def condfail_cases(rng, tier):
     """whole steps of instructions whose condition fails: nothing but the PC and the IT state may change.  A few words of
     every encoding class reached by sampling (ARM: condition field forced to a failing one; Thumb: inside an IT block whose
     condition fails), which is a concrete-input search for the theorem C05_guard and extends it to the whole step"""
-    import framework
     t = tables()
     names = {v['code']: k for k, v in t['concrete_classes'].items()}
     icpsr = t['sys_names'].index('cpsr')
     out = []
-    nsample = 20000 if tier == 'quick' else 300000
-    per_class = 2 if tier == 'quick' else 25
+    import wordpool
     plan = []
-    for module, gen, kind in (('arm_instruction_set', stepgen.random_arm_word, 'arm'),
-                              ('thumb_instruction_set_encoding_32_bit', stepgen.random_thumb32, 't32'),
-                              ('thumb_instruction_set_encoding_16_bit', stepgen.random_thumb16, 't16')):
-        words = [gen(rng) for _ in range(nsample)]
-        codes = framework.run_impl([{'kind': 'classify', 'module': module, 'words': words}], 'c05_classify_' + kind)[0]
-        byclass = {}
-        for w, c in zip(words, codes):
-            if c >= 0 and len(byclass.setdefault(c, [])) < per_class:
-                byclass[c].append(w)
-        for c, ws in sorted(byclass.items()):
-            nm = names.get(c, '')
-            if nm in SKIP_ARM or nm in SKIP_THUMB:
-                continue
-            for w in ws:
-                plan.append((kind, w))
+    for kind, w, c in wordpool.pool(rng, per_class=2 if tier == 'quick' else 25):
+        nm = names.get(c, '')
+        if nm in SKIP_ARM or nm in SKIP_THUMB:
+            continue
+        plan.append((kind, w))
     for kind, w in plan:
         cond = rng.randrange(14)
         nzcv = FAIL[cond]
